@@ -9,6 +9,7 @@ mkdir -p $V/.bin $V/.ovl $V/.tmp $V/evidence $V/replays
 (cd $V/govis && go build -o $V/.bin/govis .) || exit 1
 OVL=$($V/.bin/govis -repo /repo -cache $V/.ovl -shim $V/shim/vshim.go \
   -fullfields github.com/php-any/origami/std/channel \
+  -rtfields "${VERIF_RTFIELDS-}" \
   ./data/... ./lexer/... ./node/... ./parser/... ./runtime/... ./std/... ./token/... ./utils/... | tail -1)
 [ -f "$OVL/overlay.json" ] || { echo "setup: instrumentation failed" >&2; exit 1; }
 rc=0
